@@ -20,9 +20,11 @@ from . import common, workloads, filelib, battery, readers
 
 PID = 'C17'
 
-LOCAL_KINDS = ['exception', 'exception_seek', 'short', 'empty']
-REMOTE_KINDS = ['exception', 'exception_readall', 'short', 'empty']
-OPENERS_LOCAL = ['path', 'handle', 'ccs1', 'emulator', 'preload']
+# 'stall': the request answers in full, but only after a time-out has expired somewhere in the code under test (or,
+# where there is none, when nothing else can happen): the "timing" of the property's last clause
+LOCAL_KINDS = ['exception', 'exception_seek', 'short', 'empty', 'stall']
+REMOTE_KINDS = ['exception', 'exception_readall', 'short', 'empty', 'stall']
+OPENERS_LOCAL = ['path', 'handle', 'ccs1', 'emulator', 'preload', 'handle_nofd', 'emulator_nofd']
 OPENERS_REMOTE = ['blob', 'blob', 'emulator_blob', 'blob_preload']
 
 ASSUMPTIONS = [
@@ -33,6 +35,8 @@ ASSUMPTIONS = [
     'completion order of the up-to-20 concurrent range reads is decided by the seeded scheduler at download/readall '
     'granularity',
     'single faults are enumerated completely per sampled (file, opener, call); pairs of faults are sampled',
+    'a stalled request answers in full after a time-out has expired in the code under test (where it has none: when '
+    'nothing else can happen); time-outs of 5 s and more never expire merely because other threads were scheduled first',
 ]
 
 
@@ -157,6 +161,8 @@ def fault_arg(rng, kind, want):
     """Length of a short answer, or which exception class an 'exception' fault raises."""
     if kind.startswith('exception'):
         return rng.randrange(8)
+    if kind == 'stall':
+        return 0
     return short_len(rng, want)
 
 
